@@ -221,7 +221,7 @@ def job_calcmod(res, n, it):
     bld = maps_build(); mod = load_module(bld, MAPS_MODS)
     snap, R, pre = maps_world(bld, n, 1, it)
     draws = []
-    ex = Exec(mod, snap, RealDom()); ex.ext_prefix.append((NORMAL_PFX, normal_real(draws)))
+    ex = Exec(mod, snap, RealDom()); ex.ext_prefix.append((NORMAL_PFX, normal_real(draws))); ex.round_toint = True      # (rounding of a symbolic period: a fresh integer, no enumeration)
     st = State(); drf = R['drfsin']
     S = {}
     for nm in ('phasenoise', 'amplnoise', 'modampl', 'modtimedelta', 'syncphase'):
